@@ -263,7 +263,19 @@ func run(e *core.Env) {
 		// ---- manipulations (all must be rejected) ----
 		k := 3 + tp.Intn(6)
 		for t := 0; t < k; t++ {
-			switch tp.Intn(11) {
+			switch tp.Intn(12) {
+			case 11: // a record that names a router V already knows, but carries the delivering peer's key and signature
+				if depth < 2 {
+					continue
+				}
+				cp := append([]layer(nil), ls...)
+				forged := cp[1].at.Router
+				forged.PublicKey = P.ID.PublicKey
+				cp[1].at.Router = forged
+				if tp.Chance(1, 2) {
+					cp[1].at.Delay = uint16(tp.Intn(10))
+				}
+				reject("impersonate known router with own key", lPV, withAppendix(parser, orig, encodeChain(cp, ctx, map[int]*m.Address{0: P.ID, 1: P.ID})), depth)
 			case 0: // body
 				mut := append([]byte(nil), orig...)
 				mut[msgStart+tp.Intn(msgLen)] ^= 1 << tp.Intn(8)
